@@ -45,6 +45,13 @@ unsigned int g_choice, g_expanded, g_set_calls, g_setsize_calls, g_setsize_may_f
 unsigned long long g_pos0, g_isize0, g_cap0;
 unsigned char g_byte0, g_src;
 
+/* named loop anchors of ext2fs_file_read / ext2fs_file_write (hooks-pending/fio.diff): unused by this unit */
+#ifndef VERIF_INV_FILE_READ
+#define VERIF_INV_FILE_READ
+#endif
+#ifndef VERIF_INV_FILE_WRITE
+#define VERIF_INV_FILE_WRITE
+#endif
 #include "config.h"
 #include "ext2_fs.h"
 #include "ext2fs.h"
